@@ -66,7 +66,7 @@ func insertVertex(tx kvi.KVBulkWrite, idx *kvindex.KVIndex, graph string, vertex
 	key := VertexKey(graph, vertex.Gid)
 	value, err := proto.Marshal(vertex)
 	if err != nil {
-		return nil
+		return err
 	}
 	doc := map[string]interface{}{graph: vertexIdxStruct(vertex)}
 	if err := tx.Set(key, value); err != nil {
@@ -170,10 +170,10 @@ func (kgdb *KVInterfaceGDB) DelEdge(eid string) error {
 		return fmt.Errorf("Edge Not Found")
 	}
 
-	_, _, sid, did, _, _ := EdgeKeyParse(ekey)
+	_, _, sid, did, label, etype := EdgeKeyParse(ekey)
 
-	skey := SrcEdgeKeyPrefix(kgdb.graph, sid, did, eid)
-	dkey := DstEdgeKeyPrefix(kgdb.graph, sid, did, eid)
+	skey := SrcEdgeKey(kgdb.graph, sid, did, eid, label, etype)
+	dkey := DstEdgeKey(kgdb.graph, sid, did, eid, label, etype)
 
 	if err := kgdb.kvg.kv.Delete(ekey); err != nil {
 		return err
